@@ -61,7 +61,7 @@ func c05SDL() string {
 		}
 	}
 	b.WriteString("type Query {\n" + fields + "  o: O\n  os: [O]\n}\n")
-	b.WriteString("type O {\n" + fields + "}\n")
+	b.WriteString("type O {\n" + fields + "  o: O\n}\n")
 	return b.String()
 }
 
@@ -184,6 +184,7 @@ func c05Root(strat world.Strategy, sdl string, v interface{}) *ggql.Root {
 		root.AnyResolver = &c05Any{}
 	case world.FS:
 		leaf := &C05Obj{V: v}
+		leaf.O = leaf // O.o: the object itself, so a request can nest as deep as it likes
 		root = ggql.NewRoot(&C05Root{Query: &C05Obj{V: v, O: leaf, Os: []*C05Obj{leaf, leaf}}})
 	}
 	if err := root.ParseString(sdl); err != nil {
@@ -544,7 +545,33 @@ func runC05(c *core.Ctx) {
 			}
 		}
 	}
-	c.R.Bound = "complete product (9 leaves x 5 wrappers x value menu x 3 positions x 3 strategies); all ordered pairs of leaf types x 2 list wrappers x 6 shared Go slices; 9 leaves x {T, [T]} x value menu on fields added by a later load after the extra scalars were declared again"
+	// ---- requests nested as deep as the library's depth limit (MaxResolveDepth) and beyond: whatever the library does there
+	// (stop, complain), a value that is not of the declared type may not appear, and nothing disappears without an error
+	for _, d := range []int{ggql.MaxResolveDepth - 4, ggql.MaxResolveDepth - 3, ggql.MaxResolveDepth - 2, ggql.MaxResolveDepth - 1, ggql.MaxResolveDepth, ggql.MaxResolveDepth + 1, ggql.MaxResolveDepth + 5} {
+		for li, leaf := range c05Leaves {
+			for _, w := range []int{0, 2} {
+				for _, val := range []c05Val{{"string(abc)", "abc"}, {"struct", c05Struct{1}}, {"[]interface{}{abc}", []interface{}{"abc"}}, {"int(1)", 1}} {
+					for _, st := range strats {
+						idx++
+						if !c.OwnsIdx(idx) {
+							continue
+						}
+						c.Nontrivial()
+						c.Eval()
+						field := fmt.Sprintf("r%d_%d", li, w)
+						q := "{ " + strings.Repeat("o { ", d) + field + strings.Repeat(" }", d) + " }"
+						path := []interface{}{}
+						for i := 0; i < d; i++ {
+							path = append(path, "o")
+						}
+						path = append(path, field)
+						c05One(c, c05Root(st, sdl, val.V), c05Wrap(leaf, w), leaf, w, q, path, val, fmt.Sprintf("nested %d deep (limit %d)", d, ggql.MaxResolveDepth), st)
+					}
+				}
+			}
+		}
+	}
+	c.R.Bound = "complete product (9 leaves x 5 wrappers x value menu x 3 positions x 3 strategies); all ordered pairs of leaf types x 2 list wrappers x 6 shared Go slices; 9 leaves x {T, [T]} x value menu on fields added by a later load after the extra scalars were declared again; 7 nesting depths around MaxResolveDepth x 9 leaves x {T, [T]} x 4 values"
 }
 
 // c05One resolves q on root and checks the value at path against the declared type t: JSON shape, and null + error for a
